@@ -349,8 +349,10 @@ package ircserver
 //@   ensures rolekept: forall x robust.Id :: old(x in i.sessions) && old(i.sessions[x].Server) ==> i.sessions[x].Server
 //@   ensures revisionkept: i.Config.Revision == old(i.Config.Revision)
 //@   ensures seenkept: i.lastProcessed == old(i.lastProcessed) && (forall x robust.Id :: x in i.sessions && !old(x in i.sessions) ==> x.Id == s.Id.Id)
+//@   ensures msgidkept: reply.msgid == old(reply.msgid)
 //@   modifies *, !robust.Message
 //@   loopinv seenkept: i.lastProcessed == old(i.lastProcessed) && (forall x robust.Id :: x in i.sessions && !old(x in i.sessions) ==> x.Id == s.Id.Id)
+//@   loopinv msgidkept: reply.msgid == old(reply.msgid)
 //@   loopinv revisionkept: i.Config.Revision == old(i.Config.Revision)
 //@   loopinv rolekept: forall x robust.Id :: old(x in i.sessions) && old(i.sessions[x].Server) ==> i.sessions[x].Server
 //@   loopinv onlyself: forall x robust.Id :: x in i.sessions && i.sessions[x] != s && i.sessions[x].deleted ==> s.Server || s.Operator
@@ -450,6 +452,7 @@ package ircserver
 //@   ensures rolekept: forall x robust.Id :: old(x in i.sessions) && old(i.sessions[x].Server) ==> i.sessions[x].Server
 //@   ensures revisionkept: i.Config.Revision == old(i.Config.Revision)
 //@   ensures seenkept: i.lastProcessed == old(i.lastProcessed) && (forall x robust.Id :: x in i.sessions ==> old(x in i.sessions))
+//@   ensures msgidkept: reply.msgid == old(reply.msgid)
 //@   requires prefix: wfPrefix(i)
 //@   ensures prefix: wfPrefix(i)
 //@   requires auth: wfAuth(i) && wfLogin(i)
@@ -643,9 +646,16 @@ package ircserver
 //@   requires api: s.Id.Reply == 0
 //@   loop range i.sessions
 //@     nodefault
-//@     invariant wfMid(i) && wfAuth(i) && wfLogin(i) && replyOK(reply)
-//@     invariant forall x robust.Id :: old(x in i.sessions) ==> x in i.sessions && i.sessions[x] == old(i.sessions[x])
-//@     invariant forall x robust.Id :: x in i.sessions && !seen(x) && x.Reply != 0 ==> !i.sessions[x].deleted
+//@     invariant forall j int :: 0 <= j && j < len(pseudoClients) ==> pseudoClients[j] != 0 && mk("robust.Id", s.Id.Id, pseudoClients[j]) in i.sessions && seen(mk("robust.Id", s.Id.Id, pseudoClients[j])) && !i.sessions[mk("robust.Id", s.Id.Id, pseudoClients[j])].deleted
+//@     invariant forall j1 int, j2 int :: 0 <= j1 && j1 < j2 && j2 < len(pseudoClients) ==> pseudoClients[j1] != pseudoClients[j2]
+//@     invariant forall x robust.Id :: x in i.sessions && x != s.Id ==> !i.sessions[x].deleted
+//@   loop range pseudoClients
+//@     nodefault
+//@     invariant wfMid(i) && wfAuth(i) && wfLogin(i) && wfPrefix(i) && replyOK(reply) && s.Server && i.Config.Revision == old(i.Config.Revision) && i.lastProcessed == old(i.lastProcessed) && reply.msgid == old(reply.msgid)
+//@     invariant forall x robust.Id :: (x in i.sessions <==> old(x in i.sessions)) && (x in i.sessions ==> i.sessions[x] == old(i.sessions[x]))
+//@     invariant forall x robust.Id :: old(x in i.sessions) && old(i.sessions[x].Server) ==> i.sessions[x].Server
+//@     invariant forall j int :: rangeindex < j && j < len(pseudoClients) ==> pseudoClients[j] != 0 && mk("robust.Id", s.Id.Id, pseudoClients[j]) in i.sessions && !i.sessions[mk("robust.Id", s.Id.Id, pseudoClients[j])].deleted
+//@     invariant forall j1 int, j2 int :: 0 <= j1 && j1 < j2 && j2 < len(pseudoClients) ==> pseudoClients[j1] != pseudoClients[j2]
 //@   loop range i.sessions #1
 //@     invariant forall x robust.Id :: x in i.sessions ==> !i.sessions[x].deleted
 
@@ -825,3 +835,14 @@ package ircserver
 //@   requires i != nil && i.ConfigMu != nil && s != nil
 //@   modifies
 //@   assert@return #7 : notexpired: callarg0 == nil && s.LastActivity.Sub(time.Unix(0, lastActivity)) <= 300000000000
+
+// ---------------------------------------------------------------------------
+// C01: first-match loops over the session map find at most one session: a services link's
+// pseudo-clients are live sessions, so no two of them carry nicknames equal under the case mapping.
+//@ func lemma_uniquepseudo
+//@   opt params = i *IRCServer, a robust.Id, b robust.Id, n lcNick
+//@   requires wfAll(i) && a in i.sessions && b in i.sessions
+//@   requires NickToLower(i.sessions[a].Nick) == n && NickToLower(i.sessions[b].Nick) == n && i.sessions[a].Nick != "" && i.sessions[b].Nick != ""
+//@   ensures same: a == b
+//@ func IRCServer.ProcessMessage
+//@   ensures replyids: result.msgid == old(msg.Id.Id)
